@@ -35,7 +35,7 @@ ASSUMPTIONS = [
     "URL case / trailing-slash variants and duplicated tags with one correct value are free; created_at exactly 600 s off is free",
     "identity is observed through behaviour: save requires role w (only P1 has it), query requires role r (only P2)",
 ]
-MIN_NONTRIVIAL = {"quick": 150, "thorough": 150}
+MIN_NONTRIVIAL = {"quick": 150, "thorough": 1500}
 REQUIRED_COUNTERS = ["payloads.must_refuse", "payloads.must_accept", "sequences", "challenges_checked"]
 SHARD_TIMEOUT = {"quick": 600, "thorough": 3200}
 URL = "ws://relay.example:6969"
@@ -48,6 +48,11 @@ def plan(tier, seed):
         for urls in ("list", "string", "default"):
             out.append({"backend": backend, "urls": urls, "case_seed": seed, "mode": "payloads"})
     out.append({"mode": "challenges", "case_seed": seed, "n": 100000 if tier == "quick" else 400000})
+    if tier == "thorough":
+        for backend in ("sql", "lmdb"):
+            for urls in ("list", "string", "default"):
+                for part in range(4):
+                    out.append({"backend": backend, "urls": urls, "case_seed": seed, "mode": "sweep", "part": part, "parts": 4})
     return out
 
 
@@ -325,6 +330,67 @@ async def run_payloads(backend, urls_kind, counters, seed):
     return viols, nontrivial
 
 
+async def run_sweep(backend, urls_kind, counters, part, parts):
+    """both time bounds swept second by second around +-600 s (and coarsely in between), with relay clocks of
+    NOW, NOW+0.5 and NOW+0.99, from an anonymous and from an authenticated connection"""
+    urls, url = url_config(urls_kind)
+    service = ref.key_from_seed("service")
+    authcfg = {"enabled": True, "actions": {"save": "w", "query": "r"}}
+    if urls is not None:
+        authcfg["relay_urls"] = urls
+    rig = R.Rig(backend=backend, config={"analysis_delay": 0, "service_privatekey": service.sk_hex, "authentication": authcfg})
+    rig.load_config()
+    from nostr_relay import auth
+
+    clock = hist.Clock(NOW).install(auth)
+    await rig.start()
+    viols, nontrivial = [], []
+    pc = counters.setdefault("payloads", {})
+    try:
+        p1, p2 = ref.key_from_seed("c15-p1"), ref.key_from_seed("c15-p2")
+        await rig.storage.set_auth_roles(p1.pk, "w")
+        await rig.storage.set_auth_roles(p2.pk, "r")
+        await rig.quiesce()
+        dts = sorted(set(list(range(-615, -584)) + list(range(585, 616)) + list(range(-900, 901, 60)) + [0, -3600, 3600, -86400 * 365, 86400 * 365]))
+        cases = [(dt, frac, prior) for dt in dts for frac in (0, 0.5, 0.99) for prior in ("anon", "P2")]
+        n = 0
+        for ci, (dt, frac, prior) in enumerate(cases):
+            if ci % parts != part:
+                continue
+            n += 1
+            clock.now = NOW
+            conn = rig.connect("sw%d" % n)
+            await rig.quiesce()
+            ch = next((f[1] for _, f in conn.parsed_frames() if isinstance(f, list) and f and f[0] == "AUTH"), None)
+            if prior == "P2":
+                await conn.cmd(["AUTH", ref.make_event(p2, kind=22242, created_at=NOW, tags=[["relay", url], ["challenge", ch]], content="")])
+            clock.now = NOW + frac
+            ev = ref.make_event(p1, kind=22242, created_at=NOW + dt, tags=[["relay", url], ["challenge", ch]], content="")
+            await conn.cmd(["AUTH", ev])
+            await rig.quiesce()
+            got = "anon" if conn.exited else await identity_of(rig, conn, p1, 500000 + n)
+            clock.now = NOW
+            age = frac - dt
+            verdict = "ACCEPT" if abs(age) < 600 else ("FREE" if abs(age) == 600 else "REFUSE")
+            pc["must_refuse" if verdict == "REFUSE" else ("must_accept" if verdict == "ACCEPT" else "free")] = pc.get("must_refuse" if verdict == "REFUSE" else ("must_accept" if verdict == "ACCEPT" else "free"), 0) + 1
+            nontrivial.append(h([urls_kind, "sweep", dt, frac, prior]))
+            rp = {"backend": backend, "urls": urls_kind, "mode": "sweep", "part": part, "parts": parts}
+            if verdict == "REFUSE" and got not in (prior, "anon" if prior == "anon" else "P2"):
+                viols.append({"key": "accepted/created_at/sweep", "msg": "[%s/%s] answer timestamped %.2f s %s the relay clock changed the identity from %s to %s"
+                              % (backend, urls_kind, abs(age), "before" if age > 0 else "after", prior, got), "replay": rp})
+            if verdict == "ACCEPT" and got != "P1":
+                viols.append({"key": "valid-answer-refused/created_at/sweep", "msg": "[%s/%s] answer timestamped %.2f s %s the relay clock was refused (identity %s)"
+                              % (backend, urls_kind, abs(age), "before" if age > 0 else "after", got), "replay": rp})
+            if not conn.exited:
+                conn.disconnect()
+                await conn.processed()
+        counters["sequences"] = counters.get("sequences", 0) + 1
+        counters["challenges_checked"] = counters.get("challenges_checked", 0) + n
+    finally:
+        await rig.close()
+    return viols, nontrivial
+
+
 def classify(label, urls_kind):
     if label.startswith("relay=") and label.split("=")[1] in ("prefix", "scheme-only", "substring", "one-char", "empty"):
         return "relay-url-substring/urls-as-%s" % urls_kind
@@ -356,7 +422,9 @@ def run_challenges(n, counters):
 
 def run_shard(spec):
     counters = {}
-    if spec["mode"] == "challenges":
+    if spec["mode"] == "sweep":
+        viols, nontrivial = R.run(run_sweep, spec["backend"], spec["urls"], counters, spec["part"], spec["parts"])
+    elif spec["mode"] == "challenges":
         viols, nontrivial = run_challenges(spec["n"], counters)
         counters.setdefault("payloads", {})
     else:
@@ -375,7 +443,9 @@ def run_shard(spec):
 
 def replay(rp, spec):
     counters = {}
-    if rp.get("mode") == "challenges":
+    if rp.get("mode") == "sweep":
+        v, nt = R.run(run_sweep, rp["backend"], rp["urls"], counters, rp["part"], rp["parts"])
+    elif rp.get("mode") == "challenges":
         v, nt = run_challenges(rp["n"], counters)
     else:
         v, nt = R.run(run_payloads, rp["backend"], rp["urls"], counters, 0)
